@@ -22,7 +22,8 @@ RULE = (
     'length bound x every shift p/d in [-n-1, n+1] x fills {NaN, 0.0, -1.5} x {lag, lead, diff, dlog}, '
     'enumerated exhaustively and compared with index-formula reference loops; eval: Hypothesis-generated '
     'expressions (variables, helpers, literals, + - * /, unary -, positional index/slice, backticked label '
-    'index/slice, caller locals, shadowing names, undefined names) over containers on the span catalogue, '
+    'index/slice, caller locals, shadowing names, undefined names, a caller-supplied builtins= table that is empty, has '
+    'lag/lead swapped or defines a variable\'s name) over containers on the span catalogue, '
     'compared with an independent AST interpreter that resolves labels with its own pos(). '
     'Non-trivial: helper case with |p| >= n or p <= 0 or a non-NaN fill; eval expression that mixes a '
     'backticked and a positional subscript, or uses a helper, or shadows a name. Distinct = distinct case JSON.'
@@ -387,13 +388,30 @@ def check_eval(case):
     mode = case.get('warnings', 'ignore')
 
     scope = dict(ref_helpers())
+    custom = None
+    bmode = case.get('builtins')
+    if bmode == 'empty':
+        scope, custom = {}, {}                       # no helper is defined at all
+    elif bmode == 'swapped':
+        scope.update(lag=scope['lead'], lead=scope['lag'])
+        custom = dict(F.builtins)
+        custom.update(lag=F.builtins['lead'], lead=F.builtins['lag'])
+    elif bmode == 'shadowed':
+        # the caller's table defines a name that is also a variable: the variable wins
+        custom = dict(F.builtins)
+        custom[case['vars'][0][0]] = np.full(len(labs), 99.0)
+        scope[case['vars'][0][0]] = np.full(len(labs), 99.0)
+    if custom is not None:
+        res.tag('eval:custom-builtins:' + bmode)
+        res.nontrivial = True
     scope.update({k: v.copy() for k, v in variables.items()})
     if user_locals:
         scope.update({k: (v.copy() if isinstance(v, np.ndarray) else v) for k, v in user_locals.items()})
     with warnings.catch_warnings():
         warnings.simplefilter(mode)
         expected = attempt(ref_eval, expr, scope, labs, kind)
-    got = attempt(c.eval, text, locals=None if user_locals is None else dict(user_locals), warnings_=mode)
+    extra = {} if custom is None else {'builtins': custom}
+    got = attempt(c.eval, text, locals=None if user_locals is None else dict(user_locals), warnings_=mode, **extra)
 
     cls = ('mixed' if {'label', 'positional'} <= feats else
            'label' if 'label' in feats else 'positional' if 'positional' in feats else 'plain')
@@ -509,6 +527,8 @@ def eval_strategy(max_len):
         case = {'span': desc, 'vars': vars_, 'locals': user_locals, 'expr': expr,
                 'pad': draw(st.sampled_from(['', '', ' '])),
                 'warnings': draw(st.sampled_from(['ignore', 'ignore', 'error', 'always']))}
+        if draw(st.integers(0, 5)) == 0:
+            case['builtins'] = draw(st.sampled_from(['empty', 'swapped', 'shadowed']))
         return case
 
     return cases()
